@@ -233,7 +233,7 @@ def run_oracle_case(c, stats=None):
                 detail['expected_ar'] = want
                 detail['expected_logar'] = tot
                 scale = abs(float(logar)) + sum(abs(r) + abs(f) for _, r, f in reported)
-                if scale < 1e5:                     # well conditioned: rounding of logar << 1e-9
+                if scale < 1e4:                     # well conditioned: rounding of logar < 1e-11
                     if abs(ar - want) > RTOL * max(want, 1e-300) and not (want < 1e-290 and ar < 1e-290):
                         bad('ar', 'recorded acceptance ratio %r differs from min(1, p\'L\'^b q(x|x\')/(p L^b q(x\'|x))) = %r'
                             % (ar, want), detail)
